@@ -632,7 +632,7 @@ impl Value {
         };
         let s = hexadecimal.as_inner();
         // A literal without any digit (`0x_`) denotes nothing, not even at a zero-width type
-        if s.is_empty() || s.len() % 2 != 0 || s.len() != expected_byte_len * 2 {
+        if s.is_empty() || s.len() % 2 != 0 || s.len() / 2 != expected_byte_len {
             return Err(Error::ExpressionUnexpectedType(ty.clone()));
         }
         let bytes = Vec::<u8>::from_hex(s).expect("valid chars and valid length");
